@@ -5,6 +5,7 @@
    (nonws = the non-white-space characters in order, frame / unframe = the wire). *)
 From RP Require Import Lib.Base Lib.Strings Lib.TrimSpace Model.Flatten Spec.OneLine
   Proofs.FlattenUtf8 Proofs.FlattenProofs.
+From RP Require Import Model.MsgIn Model.EncIn Model.MsgOut Model.EncOut Proofs.FlattenEncoders.
 Open Scope Z_scope.
 Open Scope list_scope.
 
@@ -39,8 +40,33 @@ Theorem c07_frame_split_returned : forall ls, unframe (frame (one_lines ls)) = o
 Proof. exact frame_split_one_lines. Qed.
 Print Assumptions c07_frame_split_returned.
 
-(* whole-encoder form, NOT yet instantiated here because it needs Model/EncIn.v / EncOut.v:
-   no_lf_in / no_lf_out follow from c07_no_lf_returned once those models end in one_lines. *)
+(* whole-encoder form: EVERY string either encoder model returns - messages with arbitrary bytes
+   in every string field (titles, labels, model/serial/name/version/platform, register ids,
+   address lists, JSON/SVG payloads, messages), every behaviour of the json oracles and of the
+   flattening functions - is free of line feeds; hence writing each string followed by one LF and
+   splitting the stream at LF recovers exactly the produced strings.  (Model/EncIn.v and
+   Model/EncOut.v are tied to the code by the C01 / C03 correspondence checks.) *)
+Theorem c07_no_lf_in : forall (json_enc : HWCState -> list Z) (nc_print : list Z -> list Z)
+    (ms : list InboundMessage) (ls : list (list Z)),
+  enc_in json_enc nc_print ms = Ok ls -> Forall no_lf ls.
+Proof. exact no_lf_in. Qed.
+Print Assumptions c07_no_lf_in.
+
+Theorem c07_no_lf_out : forall (flat flat_svg : bytes -> bytes) (ords : list (list (Z * Z)))
+    (ms : list (option out_msg)) (ls : list bytes),
+  enc_out flat flat_svg ords ms = Ok ls -> Forall no_lf ls.
+Proof. exact no_lf_out. Qed.
+Print Assumptions c07_no_lf_out.
+
+Theorem c07_frame_split_in : forall je ncp ms ls,
+  enc_in je ncp ms = Ok ls -> unframe (frame ls) = ls ++ [[]].
+Proof. exact frame_split_in. Qed.
+Print Assumptions c07_frame_split_in.
+
+Theorem c07_frame_split_out : forall f fs ords ms ls,
+  enc_out f fs ords ms = Ok ls -> unframe (frame ls) = ls ++ [[]].
+Proof. exact frame_split_out. Qed.
+Print Assumptions c07_frame_split_out.
 
 (* ---- flattening loses no content ---- *)
 (* TrimSpace removes only white-space characters (all byte strings) *)
@@ -85,3 +111,4 @@ Proof.
   cbv zeta. split; [vm_compute; reflexivity|]. split; [vm_compute; reflexivity|].
   split; [vm_compute; reflexivity|]. split; vm_compute; reflexivity.
 Qed.
+From RP Require Import Model.MsgIn Model.EncIn Model.MsgOut Model.EncOut Proofs.FlattenEncoders.
